@@ -543,6 +543,9 @@ class DelimitedRowWriter(AbstractRowWriter):
 
         super().__init__(target, data_format)
         keywords = _as_delimited_keywords(data_format)
+        if data_format.line_delimiter != data.ANY:
+            # End lines as declared by the data format instead of the CSV writer's default.
+            keywords["lineterminator"] = data_format.line_delimiter
         self._delimited_writer = _compat.csv_writer(self._target_stream, **keywords)
 
     def write_row(self, row_to_write):
